@@ -15,6 +15,21 @@ Fixpoint zip_caps (codes : list N) (vals : list bytes) : list cap :=
   | _, _ => []
   end.
 
+(* an OPEN given as a structure: ints [ver; asn; hold; id] then per parameter [ncaps; codes...]; capability values in bs *)
+Fixpoint params_of (fuel : nat) (l : list N) (vals : list bytes) : list (list cap) :=
+  match fuel with
+  | O => []
+  | S f =>
+      match l with
+      | n :: r =>
+          let k := N.to_nat n in
+          zip_caps (firstn k r) (firstn k vals) :: params_of f (skipn k r) (skipn k vals)
+      | [] => []
+      end
+  end.
+Definition open_of (ints : list N) (bs : list bytes) : openmsg :=
+  mkOpen (nthN ints 0) (nthN ints 1) (nthN ints 2) (nthN ints 3) (params_of (S (length ints)) (skipn 4 ints) bs).
+
 Fixpoint aptuples_of (l : list N) : list aptuple :=
   match l with
   | afi :: safi :: tx :: rx :: r => mkAP afi safi (negb (tx =? 0)) (negb (rx =? 0)) :: aptuples_of r
@@ -320,6 +335,10 @@ Definition run_model (op : N) (ints : list N) (bs : list bytes) : list N :=
          | Some b => 0 :: tok_bytes b
          | None => [1]
          end
+  | 12 => match open_encode (open_of ints bs) with
+          | Some b => 0 :: tok_bytes b
+          | None => [1]
+          end
   | 6 => match open_decode (nthB bs 0) with
          | Ok o => match open_encode o with
                    | Some b => 0 :: tok_bytes b
@@ -529,6 +548,20 @@ Definition oracle (op : N) (ints : list N) (bs : list bytes) (out : list N) : li
           | _ => bad 3
           end
       | [1] => if open_repr o then bad 2 else ok
+      | _ => bad 4
+      end
+  | 112 => (* C15: the encoder emits the canonical encoding of a representable OPEN (which the strict decoder maps back
+              to it: open_roundtrip) *)
+      let o := open_of ints bs in
+      if negb (open_repr o) then na     (* the property speaks about representable OPENs only *)
+      else
+      match out with
+      | 0 :: r =>
+          match untok_bytes r with
+          | Some (m, []) => if beqb m (spec_frame_enc 1 (spec_open_body o)) then ok else bad 1
+          | _ => bad 3
+          end
+      | [1] => bad 2
       | _ => bad 4
       end
   | 106 => (* C15: re-encoding an accepted OPEN body reproduces it *)
